@@ -234,7 +234,7 @@ def main():
                           "over every table (metadata included); non-trivial = the bundle emitted "
                           "stored actions or raised")
   tune_explore()
-  explore.explore(rep, "checks.C02", "C02Monitor", n_quick=128, budget_quick_s=45)
+  explore.explore(rep, "checks.C02", "C02Monitor", n_quick=128, budget_quick_s=30)
   return rep.finish()
 
 
